@@ -284,6 +284,17 @@ func (fc *fnCtx) loopHead(h *ssa.BasicBlock, ord int, st *state) *state {
 			fc.assume(st, t)
 		}
 	}
+	// vacuity: the invariants together with the path into the loop must be satisfiable
+	// (a contradictory invariant would discharge everything behind the loop head)
+	var hpos token.Pos
+	for _, in := range h.Instrs {
+		if in.Pos().IsValid() {
+			hpos = in.Pos()
+			break
+		}
+	}
+	o := fc.assert(st, "cover", fmt.Sprintf("vacuity.loop%d.invariant-satisfiable", ord), "false", "loop invariant ∧ path into the loop must not be unsat", hpos)
+	o.wantSat = true
 	return st
 }
 
@@ -604,6 +615,11 @@ func (fc *fnCtx) execReturn(st *state, r *ssa.Return) {
 		}
 	}
 	fc.runAnchors(st, "return", func(string) bool { return true }, 0, bind, false, "true", r.Pos())
+	// cover (thorough tier): the assumptions collected on the way to this return are consistent
+	fc.nret++
+	co := fc.assert(st, "cover", fmt.Sprintf("vacuity.return%d.assumptions-consistent", fc.nret), "false", "path condition ∧ assumptions at this return must not be unsat", r.Pos())
+	co.wantSat = true
+	co.thoroughOnly = true
 	ev := &evalCtx{cur: st, old: fc.entry, bind: bind}
 	for i, c := range fc.blk.byKind("ensures") {
 		t, ok := fc.evalOwn(c, ev, "ensures")
